@@ -219,7 +219,17 @@ func (rn *runner) streamSpecials(g *gen) {
 					if def.arity == 2 {
 						yy = y
 					}
-					rn.ctxCase(op, c, x, yy, iarg)
+					// an infinity as an overflow leaves it: the fields an infinity does not use are not zero
+					xx := x
+					if xx.Form == apd.Infinite && g.r.Intn(2) == 0 {
+						xx = g.garbageInf()
+						xx.Negative = x.Negative
+					}
+					if yy != nil && yy.Form == apd.Infinite && g.r.Intn(2) == 0 {
+						yy = g.garbageInf()
+						yy.Negative = y.Negative
+					}
+					rn.ctxCase(op, c, xx, yy, iarg)
 				}
 			}
 		}
